@@ -55,6 +55,7 @@ if confirmed:
     assert sh("git status --porcelain", cwd="/repo")[1].strip() == "", "/repo not clean"
     rc, out = sh("git apply %s" % os.path.join(dst, "patch.diff"), cwd="/repo")
     assert rc == 0, out
+    shutil.copytree("/verif/evidence", "/verif/.cache/evidence.bak", dirs_exist_ok=True)  # evidence of mutant runs must not be kept
     try:
         for c in checks:
             t0 = time.time()
@@ -75,6 +76,7 @@ if confirmed:
     finally:
         sh("git checkout -- .", cwd="/repo")
         assert sh("git status --porcelain", cwd="/repo")[1].strip() == ""
+        shutil.copytree("/verif/.cache/evidence.bak", "/verif/evidence", dirs_exist_ok=True)
 meta["confirmation"] = conf
 meta["checks_run"] = results
 meta["detected_by"] = sorted(c for c, r in results.items() if r["exit"] == 1)
